@@ -8,7 +8,9 @@
    [bv_repr b B]: the model vector b stores the bit sequence B; [rank_ok b B]: its rank support is the one
    RankSupport::new builds (Proofs/RankProof.v). No theorem below needs a select support: beyond the count the
    wrappers return before touching it.
-   PARTIAL: the models of SparseVector, RLVector and WaveletMatrix/WMCore are written in other packages and are
+   The run-length vector (Model/RL.v) is covered by [C09_rl_total] at the end of this file, over run lists
+   (universes up to 2^64-1 cannot be written as bit lists).
+   PARTIAL: the models of SparseVector and WaveletMatrix/WMCore are written in other packages and are
    not part of this one; for them the full statements are given as [C09_<type>_total_statement] against
    abstract query functions (to be instantiated with those models), and the tie to the code is the
    correspondence run of Check/C09.v, whose naive-spec side decides. *)
@@ -190,7 +192,7 @@ Definition C09_bitvector_type_total_statement
     (forall k n, n < 2 ^ 64 -> lenB B - count B - k <= n -> q_zero_nth m v k n = Ok (None, None, 0)).
 
 Definition C09_sparse_total_statement := C09_bitvector_type_total_statement.
-Definition C09_rl_total_statement := C09_bitvector_type_total_statement.
+(* the run-length vector's reading of this statement is proved: C09_rl_total below *)
 
 (* the three types agree: any two instances of the statement above give equal answers on the same sequence *)
 Definition C09_types_agree_statement
@@ -270,3 +272,104 @@ Example C09_example_answers :
   | _, _ => False
   end.
 Proof. vm_compute. repeat split. Qed.
+
+(* ================================================================ the run-length vector *)
+
+(* Names of Model/RL.v (oi_empty, oi_next, ... of rl_vector.rs) shadow those of Model/BitVec.v from here on. *)
+Require Import SDS.Model.RL SDS.Spec.Runs SDS.Proofs.RLTotal.
+
+(* The RL reading of C09_bitvector_type_total_statement, over run lists instead of bit lists (a universe of
+   2^64-1 positions cannot be a bit list): for every list R of runs of set bits (sorted, non-overlapping,
+   lengths >= 1), every length L with end(R) <= L <= 2^64-1, overflow checks on or off, the vector that
+   RLBuilder + RLVector::from construct answers
+     - rank / rank_zero / select / select_zero / predecessor().next() / successor().next() with the value of the
+       run-list specification for EVERY argument below 2^64 (so never a panic and never exhausted fuel);
+     - rank(i) = count_ones for i >= len (rank_zero(i) = i - count_ones: unspecified by the API, never a panic);
+     - select(r) = None for r >= count_ones, and select_iter(r) is the empty iterator;
+     - select_zero(r) = None for r >= count_zeros, and select_zero_iter(r) is the empty iterator;
+     - successor(v) is the empty iterator for v >= len;
+     - predecessor(v) = predecessor(len - 1) for v >= len > 0 (the same iterator state, not only the same first item);
+     - the empty iterators return None, stay unchanged, and report length 0;
+   and the specification agrees in each of these cases ([runs_select .. = None] etc.), so the answers are the
+   documented ones. [lenN R < 2^56] is the address-space bound of C03. *)
+Theorem C09_rl_total : forall (m : mode) (R : list (N * N)) (L : N),
+  runs_sorted 0 R -> runs_end R <= L -> L <= 2 ^ 64 - 1 -> lenN R < 2 ^ 56 ->
+  exists v,
+    rl_build m (map (fun r => BTrySet (fst r) (snd r)) R ++ [BSetLen L]) = Ok (v, map (fun _ => true) R ++ [true]) /\
+    rl_len v = L /\ rl_ones v = runs_ones (maximal R) /\ rl_count_zeros v = L - runs_ones (maximal R) /\
+    (forall i, i < 2 ^ 64 ->
+       rl_rank m v i = Ok (runs_rank (maximal R) i) /\ rl_rank_zero m v i = Ok (i - runs_rank (maximal R) i)) /\
+    (forall r, r < 2 ^ 64 ->
+       rl_select m v r = Ok (runs_select (maximal R) r) /\
+       rl_select_zero m v r = Ok (runs_select_zero (maximal R) L r)) /\
+    (forall x, x < 2 ^ 64 ->
+       oi_first m v (rl_predecessor m v x) = Ok (runs_pred (maximal R) x) /\
+       oi_first m v (rl_successor m v x) = Ok (runs_succ (maximal R) x)) /\
+    (forall i, i < 2 ^ 64 -> L <= i ->
+       rl_rank m v i = Ok (rl_ones v) /\ rl_rank_zero m v i = Ok (i - rl_ones v) /\
+       runs_rank (maximal R) i = runs_ones (maximal R)) /\
+    (forall r, r < 2 ^ 64 -> rl_ones v <= r ->
+       rl_select m v r = Ok None /\ runs_select (maximal R) r = None /\ rl_select_iter m v r = Ok (oi_empty v)) /\
+    (forall r, r < 2 ^ 64 -> rl_count_zeros v <= r ->
+       rl_select_zero m v r = Ok None /\ runs_select_zero (maximal R) L r = None /\
+       rl_select_zero_iter m v r = Ok (zi_empty v)) /\
+    (forall x, x < 2 ^ 64 -> L <= x ->
+       rl_successor m v x = Ok (oi_empty v) /\ runs_succ (maximal R) x = None) /\
+    (forall x, x < 2 ^ 64 -> L <= x -> 0 < L ->
+       rl_predecessor m v x = rl_predecessor m v (L - 1) /\ runs_pred (maximal R) x = runs_pred (maximal R) (L - 1)) /\
+    oi_next m v (oi_empty v) = Ok (oi_empty v, None) /\ oi_size_hint v (oi_empty v) = 0 /\
+    zi_next m v (zi_empty v) = Ok (zi_empty v, None) /\ zi_size_hint v (zi_empty v) = 0.
+Proof. exact rl_total. Qed.
+Print Assumptions C09_rl_total.
+
+(* the wrappers decide on len / count_ones / count_zeros alone: the same answers for ANY vector value, whatever
+   its sample indexes and encoding hold (they are not consulted) *)
+Theorem C09_rl_wrappers_beyond : forall (m : mode) (v : rlvec),
+  (forall r, rl_ones v <= r -> rl_select m v r = Ok None /\ rl_select_iter m v r = Ok (oi_empty v)) /\
+  (forall r, rl_count_zeros v <= r -> rl_select_zero m v r = Ok None /\ rl_select_zero_iter m v r = Ok (zi_empty v)) /\
+  (forall x, rl_len v <= x -> rl_successor m v x = Ok (oi_empty v)) /\
+  (forall x, rl_len v <= x -> rl_predecessor m v x = rl_predecessor m v (rl_len v - 1)).
+Proof.
+  intros m v. split; [exact (select_beyond m v)|]. split; [exact (select_zero_beyond m v)|].
+  split; [exact (successor_beyond m v)|exact (predecessor_beyond m v)].
+Qed.
+Print Assumptions C09_rl_wrappers_beyond.
+
+(* Iterator::nth (the std default: advance_by(n) + next over the crate's next) on one_iter() / zero_iter() / iter()
+   after ANY history cs of next / nth / len calls: with n at least the number of items left (in particular every
+   n >= count, up to 2^64-1), nth(n) = None, the following next() = None and len() = 0 - the
+   q_one_nth / q_zero_nth clauses of C09_bitvector_type_total_statement, for every history instead of "k x next".
+   [ones_all F 0] / [zeros_all F L 0] / [bits_all F L 0] (Spec/RunsIter.v) are the complete reference sequences,
+   [dq_run] the deque specification of C10; [lenA (fst (dq_run l cs))] is the number of items left after cs. *)
+Require Import SDS.Spec.Deque SDS.Spec.RunsIter SDS.Model.RLIters SDS.Proofs.RLDeque.
+Theorem C09_rl_nth_beyond : forall (m : mode) (R : list (N * N)) (L : N),
+  runs_sorted 0 R -> runs_end R <= L -> L <= 2 ^ 64 - 1 -> lenN R < 2 ^ 56 ->
+  exists v,
+    rl_build m (map (fun r => BTrySet (fst r) (snd r)) R ++ [BSetLen L]) = Ok (v, map (fun _ => true) R ++ [true]) /\
+    (forall cs n, Forall call_fwd cs -> lenA (fst (dq_run (ones_all (maximal R) 0) cs)) <= n ->
+       exists s s', rl_one_iter v = Ok s /\
+         it_run (rl_oi_step m v) s (cs ++ [Nth n; Next; Len]) =
+           Ok (s', snd (dq_run (ones_all (maximal R) 0) cs) ++ [Item None; Item None; Count 0])) /\
+    (forall cs n, Forall call_fwd cs -> lenA (fst (dq_run (zeros_all (maximal R) L 0) cs)) <= n ->
+       exists s s', rl_zero_iter m v = Ok s /\
+         it_run (rl_zi_step m v) s (cs ++ [Nth n; Next; Len]) =
+           Ok (s', snd (dq_run (zeros_all (maximal R) L 0) cs) ++ [Item None; Item None; Count 0])) /\
+    (forall cs n, Forall call_fwd cs -> lenA (fst (dq_run (bits_all (maximal R) L 0) cs)) <= n ->
+       exists s s', rl_iter v = Ok s /\
+         it_run (rl_bi_step m v) s (cs ++ [Nth n; Next; Len]) =
+           Ok (s', snd (dq_run (bits_all (maximal R) L 0) cs) ++ [Item None; Item None; Count 0])).
+Proof. exact rl_nth_beyond. Qed.
+Print Assumptions C09_rl_nth_beyond.
+
+(* non-vacuity: universe 2^64-1 with ones at 3, 4, 2^63 and 2^64-3, 2^64-2; the answers at the extremes *)
+Example C09_rl_example :
+  (let* (v, _) := rl_build Release [BTrySet 3 2; BTrySet (2 ^ 63) 1; BTrySet (2 ^ 64 - 3) 2; BSetLen (2 ^ 64 - 1)] in
+   let* a := rl_rank Release v (2 ^ 64 - 1) in
+   let* b := rl_select Release v 5 in
+   let* c := rl_select_zero Release v (2 ^ 64 - 6) in
+   let* d := rl_select_zero Release v (2 ^ 64 - 7) in
+   let* e := oi_first Release v (rl_predecessor Release v (2 ^ 64 - 1)) in
+   let* f := oi_first Release v (rl_successor Release v (2 ^ 64 - 1)) in
+   Ok (rl_len v, rl_ones v, a, b, c, d, e, f))
+  = Ok (2 ^ 64 - 1, 5, 5, None, None, Some (2 ^ 64 - 4), Some (4, 2 ^ 64 - 2), None).
+Proof. vm_compute. reflexivity. Qed.
